@@ -25,6 +25,10 @@ import (
 type View struct {
 	K string `json:"k"` // "S" Slice, "C" ConstSlice, "T"
 	A [4]int `json:"a"`
+	// P: probe calls made on the CURRENT object before this step, results discarded (bit 1: T(), bit 2: Slice of
+	// the whole window, bit 4: T().T()): view constructors are pure functions of the header, so a discarded call
+	// must not influence any later view (no state cached in the header and carried along by `m := *matrix`)
+	P int `json:"p,omitempty"`
 }
 type Op struct {
 	Name string  `json:"name"`
@@ -156,6 +160,9 @@ func applyViews(base ad.Matrix, views []View) (v ad.Matrix, failed bool) {
 	}()
 	v = base
 	for _, w := range views {
+		if w.P != 0 {
+			probe(v, w.P)
+		}
 		switch w.K {
 		case "S":
 			v = v.Slice(w.A[0], w.A[1], w.A[2], w.A[3])
@@ -168,6 +175,20 @@ func applyViews(base ad.Matrix, views []View) (v ad.Matrix, failed bool) {
 		}
 	}
 	return v, false
+}
+
+// probe calls view constructors on v and discards the results
+func probe(v ad.Matrix, p int) {
+	if p&1 != 0 {
+		_ = v.T()
+	}
+	if p&2 != 0 {
+		n, m := v.Dims()
+		_ = v.Slice(0, n, 0, m)
+	}
+	if p&4 != 0 {
+		_ = v.T().T()
+	}
 }
 
 func arg(o Op, k int) int {
@@ -353,6 +374,13 @@ func execOp(sparse bool, tname string, view ad.Matrix, o Op, outdir string) (res
 			nm = ad.NullDenseMatrix(t, 0, 0)
 		}
 		if err := nm.(json.Unmarshaler).UnmarshalJSON(b); err != nil {
+			// UnmarshalJSON rejects len(Values) != Rows*Cols (d37b260): on a MALFORMED dense view whose header takes the
+			// raw-storage branch of MarshalJSON (cols > colMax after T / overreaching slice / T) the text is still what
+			// MarshalJSON wrote -- the observable of this operation -- so it is decoded field by field instead
+			if r2, ok := decodeDenseJSON(t, b); ok && !sparse {
+				res = r2
+				break
+			}
 			panic(err)
 		}
 		h := header(nm)
@@ -397,6 +425,33 @@ func execOp(sparse bool, tname string, view ad.Matrix, o Op, outdir string) (res
 }
 
 // numbers extracts the integers printed in a String()/Table() output
+// decodeDenseJSON reads {"Values": [...], "Rows": r, "Cols": c} as written by the dense MarshalJSON: r, c, values
+func decodeDenseJSON(t ad.ScalarType, b []byte) ([]int64, bool) {
+	var raw struct {
+		Values []json.RawMessage
+		Rows   int
+		Cols   int
+	}
+	if json.Unmarshal(b, &raw) != nil {
+		return nil, false
+	}
+	res := []int64{int64(raw.Rows), int64(raw.Cols)}
+	for _, rm := range raw.Values {
+		var f float64
+		if json.Unmarshal(rm, &f) == nil {
+			res = append(res, int64(f))
+			continue
+		}
+		sc := ad.NullScalar(t)
+		if u, ok := sc.(json.Unmarshaler); ok && u.UnmarshalJSON(rm) == nil {
+			res = append(res, int64(sc.GetFloat64()))
+			continue
+		}
+		return nil, false
+	}
+	return res, true
+}
+
 func numbers(s string) []int64 {
 	r := []int64{}
 	f := strings.FieldsFunc(s, func(c rune) bool { return c == '[' || c == ']' || c == ',' || c == ' ' || c == '\n' || c == '\t' })
@@ -540,6 +595,47 @@ func main() {
 		hunt(o)
 		return
 	}
+	if o.Extra == "probediff" {
+		// diagnostic: every case of a cases.jsonl (--replay) that carries discarded constructor calls is executed with
+		// and without them; the observations must be identical
+		b, err := os.ReadFile(o.Replay)
+		if err != nil {
+			Die("%v", err)
+		}
+		nd, np := 0, 0
+		for _, line := range strings.Split(string(b), "\n") {
+			if strings.TrimSpace(line) == "" {
+				continue
+			}
+			var c Case
+			if err := json.Unmarshal([]byte(line), &c); err != nil {
+				Die("probediff: %v", err)
+			}
+			if c.Bin != nil {
+				continue
+			}
+			c2 := c
+			c2.Views = append([]View{}, c.Views...)
+			has := false
+			for i := range c2.Views {
+				has = has || c2.Views[i].P != 0
+				c2.Views[i].P = 0
+			}
+			if !has {
+				continue
+			}
+			np++
+			o1, o2 := execute(c, o.Out), execute(c2, o.Out)
+			j1, _ := json.Marshal(o1)
+			j2, _ := json.Marshal(o2)
+			if string(j1) != string(j2) {
+				nd++
+				fmt.Printf("DIFF %s\n  with: %s\n  without: %s\n", line, j1, j2)
+			}
+		}
+		fmt.Printf("probediff: %d cases with discarded calls, %d differ\n", np, nd)
+		return
+	}
 	if o.Replay != "" {
 		b, err := os.ReadFile(o.Replay)
 		if err != nil {
@@ -580,7 +676,8 @@ func main() {
 	var corpusBin []BCase
 	var corpusX []Case
 	w.Rule = "base matrix <= 7x7 (distinct integer entries, ~15% zeros), a composition of 0-4 Slice/ConstSlice/T " +
-		"(10% of the slices overreach their parent: malformed stream), then one public operation, dense and sparse, " +
+		"(10% of the slices overreach their parent: malformed stream; dense: before 1/3 of the steps T() / Slice(whole) / T().T() are " +
+		"called on the object the step starts from and DISCARDED -- constructors are pure header functions), then one public operation, dense and sparse, " +
 		"element types Float64 Real64 Int Float32 Real32 Int64 Int32 Int16; observed: header before/after, result, elements " +
 		"through the view and raw storage of the parent. A case is non-trivial iff the view is a proper window or " +
 		"transposed (header differs from a fresh matrix of the same shape) and has at least 2 elements; distinct = distinct (type, shape, views, op)"
@@ -623,8 +720,9 @@ func main() {
 	wb := NewCaseWriter(o.Out, "bcases", hdrB, "mismB", 150)
 	wb.Type = "bcase"
 	wb.Rule = "parent matrix 2..6 x 2..6, receiver and both operands drawn as windows / transposed windows / nested windows " +
-		"of THAT parent (10-20% fresh matrices, 1/6 identical to the receiver), then MaddM/MsubM/MmulM, MdotM, Set or the joint " +
-		"iterator; observed: the three headers, panic, the joint report, the receiver's elements and every storage. " +
+		"of THAT parent (10-20% fresh matrices, 1/6 identical to the receiver), then MaddM/MsubM/MmulM, MdotM, Set, the joint " +
+		"iterator, or Equals/EQUALS between two windows of the parent (shifted windows, a square window against its own T(); constant, " +
+		"periodic and symmetric parents so that both outcomes occur); observed: the three headers, panic, the joint report, the receiver's elements and every storage. " +
 		"Non-trivial iff at least two of receiver/operands are proper views of the parent; distinct = distinct (type, shape, view programs, op)"
 	for _, bc := range corpusBin {
 		bc.Obs = executeBin(bc)
@@ -707,4 +805,19 @@ func countCase(w *CaseWriter, c Case) {
 		}
 	}
 	w.Count(fmt.Sprintf("transposes:%d", nt))
+	np, tst := 0, false
+	for i, v := range c.Views {
+		if v.P != 0 {
+			np++
+			if v.P&1 != 0 && v.K != "T" && i+1 < len(c.Views) && c.Views[i+1].K == "T" {
+				tst = true
+			}
+		}
+	}
+	if np > 0 {
+		w.Count("discarded-constructor-calls-before-a-step")
+	}
+	if tst {
+		w.Count("T()-discarded-then-Slice-then-T()")
+	}
 }
